@@ -3,7 +3,8 @@
 (* the real reader saw it and what it built from it:                          *)
 (*   coders {n}              Folder._read: number of coder records            *)
 (*   pair   {i, o}           one Bond as parsed (n-1 of them)                 *)
-(*   built  {order, main}    positions (in folder.coders) of the coder dicts  *)
+(*   built  {order, main, packed}  packed = folder.packed_indices           *)
+(*                           positions (in folder.coders) of the coder dicts  *)
 (*                           SevenZipDecompressor was constructed with, in    *)
 (*                           the order given; main = position whose unpack    *)
 (*                           size get_unpack_size() returned                  *)
@@ -27,6 +28,7 @@ TWalk == (BeginWalk \/ Step \/ Finish) /\ Silent /\ l <= Len(Traces[tid]) /\ Ev.
 TBuilt == /\ IsEvent("built") /\ phase = "done"
           /\ Len(Ev.order) = n /\ \A k \in 1..n : Ev.order[k] = order[k]     \* the pipeline the code built is the model's
           /\ Ev.main = mainout
+          /\ {Ev.packed[k] : k \in 1..Len(Ev.packed)} = Starts /\ Len(Ev.packed) = Cardinality(Starts)   \* packed_indices as Folder._read inferred them
           /\ (WellFormed => (order = SemOrder /\ mainout = SemMainOut))       \* ... and the one the format defines (C06)
           /\ UNCHANGED vars
 
